@@ -151,7 +151,7 @@ func runC18(em *vEmitter, r *vRng) {
 		term := "(Some " + t.coq() + ")"
 		class := "tree"
 		// YAML-level mutations: the decoder itself must refuse these
-		switch r.intn(14) {
+		switch r.intn(16) {
 		case 0:
 			doc += "unknownkey: 1\n"
 			term, class = "None", "yaml/unknown-top-key"
@@ -196,13 +196,45 @@ func runC18(em *vEmitter, r *vRng) {
 		case 5:
 			doc = "{ this is : not [ yaml"
 			term, class = "None", "yaml/garbage"
+		case 8:
+			// an empty item in the list of parameter sets ("  -", "  - ~", "  - null"): it names no set;
+			// the document means the same as without it
+			if strings.Contains(doc, "params:\n") {
+				item := []string{"  -\n", "  - ~\n", "  - null\n", "  - \n"}[r.intn(4)]
+				if r.intn(2) == 0 {
+					doc = strings.Replace(doc, "params:\n", "params:\n"+item, 1)
+				} else {
+					doc += item
+				}
+				class = "yaml/null-list-item"
+			}
+		case 9:
+			// null in place of a block or a scalar
+			if strings.Contains(doc, "    argon2id:\n") && r.intn(2) == 0 {
+				i := strings.Index(doc, "    argon2id:\n")
+				j := i + len("    argon2id:\n")
+				for j < len(doc) && strings.HasPrefix(doc[j:], "      ") {
+					j += strings.Index(doc[j:], "\n") + 1
+				}
+				doc = doc[:i] + "    argon2id: ~\n" + doc[j:]
+				class = "yaml/null-block"
+				term = ""
+			}
 		}
 		cfg := filepath.Join(root, fmt.Sprintf("c%d.yaml", i))
 		os.WriteFile(cfg, []byte(doc), 0600)
-		d, err := lib.NewDirFromConfig(cfg)
-		accepted := err == nil
 		viol := ""
-		if accepted && t.basedir != "" && nChild < 120 && len(d.Params) > 0 {
+		d, err := func() (d *lib.Dir, err error) {
+			defer func() {
+				if e := recover(); e != nil {
+					viol = fmt.Sprintf("the configuration loader crashed: %v", e)
+					err = fmt.Errorf("panic: %v", e)
+				}
+			}()
+			return lib.NewDirFromConfig(cfg)
+		}()
+		accepted := err == nil
+		if accepted && class == "tree" && t.basedir != "" && nChild < 120 && len(d.Params) > 0 {
 			// every accepted parameter set must hash and verify or fail with an error - in a child process
 			nChild++
 			os.Mkdir(base, 0700)
@@ -231,6 +263,9 @@ func runC18(em *vEmitter, r *vRng) {
 			Coq: fmt.Sprintf("LoadCase %s %s", term, cB(accepted)), Human: map[string]interface{}{"yaml": truncS(doc, 600), "accepted": accepted, "err": fmt.Sprint(err)}}
 		if viol != "" {
 			c.Violation = viol
+		}
+		if term == "" {
+			c.Coq = "" // recorded, judged only for crashes (the block's meaning is not modelled)
 		}
 		em.emit(c)
 	}
